@@ -11,7 +11,6 @@ func ikeDecodeDecrypt(b []byte, h *message.IKEHeader, sa *security.IKESAKey, rol
 }
 
 func propC05(c *Ctx) {}
-func propC17(c *Ctx) {}
 
 // akaWire: a well-formed EAP-AKA' packet produced without the library, attributes in arbitrary order
 func (g *Gen) akaWire() []byte {
